@@ -58,6 +58,14 @@ type Case struct {
 	Handlers   int    `json:"handlers"`            // 1-3 handlers per type
 	Async      bool   `json:"async,omitempty"`     // the last handler is asynchronous
 	UseCtx     bool   `json:"usectx,omitempty"`
+	// Notify: the persistence error handler publishes a Notice event on the
+	// same bus for every failure it is told about (a dead-letter notification).
+	Notify bool `json:"notify,omitempty"`
+}
+
+// Notice is what a notifying error handler publishes.
+type Notice struct {
+	For int `json:"notice_for"`
 }
 
 type report struct {
@@ -82,7 +90,27 @@ func idOfAny(ev any) int {
 	return -1
 }
 
+// Run executes the case under a watchdog: nothing in it waits on purpose
+// beyond 2-6 ms store delays, so 20 s without an end, twice, is a hang.
 func Run(c *Case) *vkit.Outcome {
+	var res *vkit.Outcome
+	timedOut, dump := vkit.Watchdog(20*time.Second, func() { res = run(c) })
+	if timedOut {
+		again, dump2 := vkit.Watchdog(20*time.Second, func() { res = run(c) })
+		if again {
+			o := &vkit.Outcome{}
+			if len(dump2) > 6000 {
+				dump2 = dump2[:6000]
+			}
+			o.Failf("", "%+v: the run of publishes did not finish within 20 s, twice (Publish or Wait blocked after a persistence failure); goroutines:\n%s", *c, dump2)
+			return o
+		}
+		_ = dump
+	}
+	return res
+}
+
+func run(c *Case) *vkit.Outcome {
 	o := &vkit.Outcome{}
 	storekit.SetVariant(vkit.HashOf(c))
 	var inner eventbus.EventStore
@@ -153,16 +181,28 @@ func Run(c *Case) *vkit.Outcome {
 	})
 
 	var reports []report
+	var bus *eventbus.EventBus
+	var noticeReports, noticesDelivered atomic.Int32
+	noticeType := eventbus.EventType(Notice{})
+	base.Bypass = func(e *eventbus.Event) bool { return e.Type == noticeType }
 	errHandler := func(ev any, t reflect.Type, err error) {
+		if _, isNotice := ev.(Notice); isNotice {
+			noticeReports.Add(1) // a notice that could not be stored (closed store): no further notice
+			return
+		}
 		mu.Lock()
 		reports = append(reports, report{idOfAny(ev), t, err})
 		mu.Unlock()
+		if c.Notify && bus != nil {
+			eventbus.Publish(bus, Notice{For: idOfAny(ev)})
+		}
 	}
 	opts := []eventbus.Option{eventbus.WithStore(store), eventbus.WithPersistenceTimeout(2 * time.Millisecond)}
 	if c.ErrHandler && !c.SetLater {
 		opts = append(opts, eventbus.WithPersistenceErrorHandler(errHandler))
 	}
-	bus := eventbus.New(opts...)
+	bus = eventbus.New(opts...)
+	eventbus.Subscribe(bus, func(Notice) { noticesDelivered.Add(1) })
 	if c.ErrHandler && c.SetLater {
 		bus.SetPersistenceErrorHandler(errHandler)
 	}
@@ -362,6 +402,13 @@ func Run(c *Case) *vkit.Outcome {
 			}
 		}
 	}
+	if c.ErrHandler && c.Notify {
+		if got := int(noticesDelivered.Load()); got != len(reports) {
+			o.Failf("", "%s: the error handler published %d notices on the bus, %d were delivered", desc, len(reports), got)
+			return o
+		}
+		o.Class("error_handler_publishes_on_the_same_bus")
+	}
 	if len(reports) != nFail && c.ErrHandler {
 		o.Failf("", "%s: %d failures, %d reports", desc, nFail, len(reports))
 		return o
@@ -385,6 +432,20 @@ func Run(c *Case) *vkit.Outcome {
 			return o
 		}
 		var gotIDs []int
+		kept := evs[:0:0]
+		nNotices := 0
+		for _, se := range evs {
+			if se.Type == noticeType {
+				nNotices++
+				continue
+			}
+			kept = append(kept, se)
+		}
+		evs = kept
+		if c.ErrHandler && c.Notify && nNotices != len(reports) {
+			o.Failf("", "%s: %d notices were published by the error handler, the log holds %d of them", desc, len(reports), nNotices)
+			return o
+		}
 		for i, se := range evs {
 			var x struct {
 				ID int `json:"id"`
